@@ -2,10 +2,13 @@
   Driver for C11 (adjustment-results reader): runs Gama.AdjRes.run (Model/AdjResRun.lean over the GENERATED
   tables of Gen/AdjResAutomaton.lean) on the SAX event lines printed by harness/c11_adjres.cpp.
   Input lines:  start <hexname> <line> [<hexattr>=<hexval>]… | stop <line> | text <line> <hex> | end
-  Output     :  R <state> <hexmsg|-> <stack size> <tmp_i|-> <tmp_e|-> <writes>   after every event,  O … for `end`
+  Output     :  R <state> <hexmsg|-> <stack size> <tmp_i|-> <tmp_e|-> <writes>   after every event,  O … for `end`,
+                followed by  D 0|1 : did the two numeric `<cov-mat>` tests pass at every event (`AdjRes.RunDemand`, the
+                hypothesis of `C11_reader_accepts_writer_output`, Model/AdjResWriter.lean)
 -/
 import Gama.Proto
 import Gama.Model.AdjResRun
+import Gama.Model.AdjResWriter
 open Gama Gama.Proto Gama.AdjRes
 
 def unhex (s : String) : Option (List Char) :=
@@ -37,6 +40,8 @@ def parseAttr (tok : String) : Option (String × String) :=
 structure DSt where
   st : St := St.init
   lines : Array Nat := #[]
+  /-- `RunDemand St.init` of the events so far -/
+  demand : Bool := true
 
 def stateIdx (s : State) : Nat := State.all.idxOf s
 
@@ -52,7 +57,7 @@ def emit (old new : St) : String :=
 
 def feed (d : DSt) (line : Nat) (e : Event) : DSt × String :=
   let st' := step d.st e
-  ({ st := st', lines := d.lines.push line }, emit d.st st')
+  ({ st := st', lines := d.lines.push line, demand := d.demand && evDemand d.st e }, emit d.st st')
 
 def stepLine (d : DSt) (line : String) : DSt × String :=
   match tokens line with
@@ -69,10 +74,11 @@ def stepLine (d : DSt) (line : String) : DSt × String :=
     | some l, some cs => feed d l (.text cs)
     | _, _ => (d, "bad-op")
   | ["end"] =>
+    let dl := if d.demand then "\nD 1" else "\nD 0"
     match outcome d.st with
-    | .accepted => (d, "O ok")
-    | .refused none => (d, "O parser 0 -1")
-    | .refused (some (i, _)) => (d, s!"O parser {d.lines[i]?.getD 0} -1")
+    | .accepted => (d, "O ok" ++ dl)
+    | .refused none => (d, "O parser 0 -1" ++ dl)
+    | .refused (some (i, _)) => (d, s!"O parser {d.lines[i]?.getD 0} -1" ++ dl)
   | _ => (d, "bad-op")
 
 def main : IO Unit := loop stepLine {}
